@@ -1046,7 +1046,10 @@ func (p *Proc) execGo(st *State, x *ast.GoStmt) {
 	}
 	args := p.evalArgs(ec, sig, x.Call)
 	if v := p.varOfExpr(ec, x.Call.Fun); v != nil && p.cbParams[v.Name()] == v {
+		// on another goroutine: counted as the invocation, but not "before the function returns"
+		p.asyncCall = true
 		p.callValue(ec, x.Call.Fun, fv, sig, args, x.Call)
+		p.asyncCall = false
 		return
 	}
 	cnt := p.heapGet(st, "G:$spawncount", SInt)
